@@ -73,8 +73,84 @@ func showList(a []any) string {
 	return m.String()
 }
 
+// c15RunSelf: the source holds (a handle of) the destination among its elements. Nothing in the statement exempts that
+// element: a true result still means "previous elements followed by EVERY element of the source, in order". The
+// destination then contains itself, so only shallow, identity-based observations are made here.
+func c15RunSelf(c *core.Ctx) {
+	r := c.Rng
+	dst := NewStack(Kinds[r.Intn(5)], 0)
+	pre := r.Intn(3)
+	for i := 0; i < pre; i++ {
+		dst.Push(fmt.Sprintf("d%d", i))
+	}
+	form := []string{"native", "alias", "ptr-native", "ptr-alias"}[r.Intn(4)]
+	var handle any = dst
+	switch form {
+	case "alias":
+		handle = AStack(dst)
+	case "ptr-native":
+		handle = &dst
+	case "ptr-alias":
+		a := AStack(dst)
+		handle = &a
+	}
+	n := r.Range(1, 4)
+	at := r.Intn(n)
+	src := NewStack(Kinds[r.Intn(5)], 0)
+	var want []any
+	for i := 0; i < n; i++ {
+		if i == at {
+			src.Push(handle)
+			want = append(want, handle)
+		} else {
+			v := fmt.Sprintf("s%d", i)
+			src.Push(v)
+			want = append(want, v)
+		}
+	}
+	desc := map[string]any{"form": form, "src_len": n, "handle_at": at, "dst_len": pre}
+	var ok bool
+	if p, msg, site := Guard(func() { ok = src.Transfer(dst) }); p {
+		c.Violatef("panic:"+site+":self-in-source", desc, "Transfer panicked: %s", msg)
+		return
+	}
+	c.Count("self-in-source")
+	if src.Len() != n {
+		c.Violatef("source-changed", desc, "source length %d, was %d", src.Len(), n)
+		return
+	}
+	for i := 0; i < n; i++ {
+		v, _ := src.Index(i)
+		if (i == at && !sameInstance(v, handle)) || (i != at && v != want[i]) {
+			c.Violatef("source-changed", desc, "source position %d changed", i)
+			return
+		}
+	}
+	if !ok {
+		if dst.Len() != pre {
+			c.Violatef("partial-copy:self-in-source", desc, "Transfer returned false but the destination grew from %d to %d", pre, dst.Len())
+		}
+		return
+	}
+	if dst.Len() != pre+n {
+		c.Violatef("false-success:self-in-source", desc, "Transfer returned true; the destination holds %d elements, expected %d (its previous %d followed by all %d of the source)", dst.Len(), pre+n, pre, n)
+		return
+	}
+	for i := 0; i < n; i++ {
+		v, _ := dst.Index(pre + i)
+		if (i == at && !sameInstance(v, handle)) || (i != at && v != want[i]) {
+			c.Violatef("wrong-content", desc, "Transfer returned true; destination position %d does not hold source element %d", pre+i, i)
+			return
+		}
+	}
+}
+
 func c15RunLarge(c *core.Ctx) {
 	r := c.Rng
+	if r.Chance(1, 4) {
+		c15RunSelf(c)
+		return
+	}
 	n := []int{1, 8, 63, 64, 65, 100, 128, 200}[r.Intn(8)]
 	src := NewStack(Kinds[r.Intn(5)], 0)
 	for i := 0; i < n; i++ {
@@ -300,7 +376,7 @@ func init() {
 			"a false result although everything would fit is counted (outcome.refused-with-room) but not judged: the statement only forbids false success, partial copies under capacity shortage, and changes to inert destinations or to the source",
 		},
 		Floors: func(string) map[string]int64 {
-			return map[string]int64{"outcome.refused-capacity": 500, "outcome.refused-inert": 1000, "nontrivial": 1000, "large-sources": 300}
+			return map[string]int64{"outcome.refused-capacity": 500, "outcome.refused-inert": 1000, "nontrivial": 1000, "large-sources": 300, "self-in-source": 80}
 		},
 		Exhaustive: func(string) bool { return false },
 	})
